@@ -190,4 +190,88 @@ def del (cfg : Cfg) (r : Route) (c : Cluster) (dm : Bytes) (k : Key) : Cluster :
   let c2 := (if cfg.R > 1 then r.baks else []).foldl (fun c m => c.setCopy m .bak dm k none) c1
   c2.setCopy r.owner .prim dm k none
 
+/-! ### atomic operations and locks (compositions of get / put / delete / expire) -/
+
+/-- decimal digits of a natural number, as bytes -/
+def natBytes (n : Nat) : Bytes := (Nat.toDigits 10 n).map (fun c => UInt8.ofNat c.toNat)
+
+def intBytes (i : Int) : Bytes := if i < 0 then 45 :: natBytes i.natAbs else natBytes i.toNat
+
+def parseDigitsB : Bytes → Nat → Option Nat
+  | [], acc => some acc
+  | c :: cs, acc => if 48 ≤ c.toNat ∧ c.toNat ≤ 57 then parseDigitsB cs (acc * 10 + (c.toNat - 48)) else none
+
+/-- strconv.ParseInt(value, 10, 64) as used by loadCurrentAtomicInt: anything unparsable counts as 0 -/
+def parseIntB (b : Bytes) : Option Int :=
+  match b with
+  | [] => none
+  | 45 :: ds => if ds = [] then none else (parseDigitsB ds 0).map (fun n => -(n : Int))
+  | 43 :: ds => if ds = [] then none else (parseDigitsB ds 0).map (fun n => (n : Int))
+  | ds => (parseDigitsB ds 0).map (fun n => (n : Int))
+
+/-- atomicIncrDecr: read through Get, add, write back keeping the key's expiry -/
+def incr (cfg : Cfg) (r : Route) (reach : Reach) (c : Cluster) (dm : Bytes) (k : Key) (delta : Int) (now : Int) :
+    Cluster × Option Int :=
+  let (c1, res) := get cfg r reach c dm k now
+  let cur : Option (Int × Int) :=
+    match res with
+    | .val x => some (match parseIntB x.val with | some n => (n, x.ttl) | none => (0, 0))
+    | .notFound => some (0, 0)
+    | _ => none
+  match cur with
+  | none => (c1, none)
+  | some (n, ttl) =>
+    let pc : PutCfg := if ttl != 0 then { ttl := .px (ttl * 1000000 - now) } else {}
+    let (c2, pres) := put cfg r reach c1 dm k (intBytes (n + delta)) pc now
+    (c2, if pres = .ok then some (n + delta) else none)
+
+/-- getPut: the old value (if any), then a plain Put -/
+def getPut (cfg : Cfg) (r : Route) (reach : Reach) (c : Cluster) (dm : Bytes) (k : Key) (v : Bytes) (now : Int) :
+    Cluster × Res × Option Copy :=
+  let (c1, res) := get cfg r reach c dm k now
+  match res with
+  | .val x => let (c2, p) := put cfg r reach c1 dm k v {} now; (c2, p, some x)
+  | .notFound => let (c2, p) := put cfg r reach c1 dm k v {} now; (c2, p, none)
+  | e => (c1, e, none)
+
+inductive LockRes | acquired | notAcquired | noSuchLock | ok | other
+  deriving DecidableEq, Repr
+
+/-- Lock: put-if-absent of the token, with an expiry iff a timeout was asked for.  With the clock
+    standing still a held lock cannot be acquired before the deadline. -/
+def lock (cfg : Cfg) (r : Route) (reach : Reach) (c : Cluster) (dm : Bytes) (k : Key) (token : Bytes)
+    (timeout now : Int) : Cluster × LockRes :=
+  let pc : PutCfg := { nx := true, ttl := if timeout != 0 then .px timeout else .none }
+  match put { cfg with dmTTL := cfg.dmTTL } r reach c dm k token pc now with
+  | (c', .ok) => (c', .acquired)
+  | (c', .keyFound) => (c', .notAcquired)
+  | (c', _) => (c', .other)
+
+/-- Unlock: compare the token, then delete -/
+def unlock (cfg : Cfg) (r : Route) (reach : Reach) (c : Cluster) (dm : Bytes) (k : Key) (token : Bytes) (now : Int) :
+    Cluster × LockRes :=
+  match get cfg r reach c dm k now with
+  | (c1, .val x) => if x.val = token then (del cfg r c1 dm k, .ok) else (c1, .noSuchLock)
+  | (c1, .notFound) => (c1, .noSuchLock)
+  | (c1, _) => (c1, .other)
+
+/-- Lease: compare the token, then Expire -/
+def lease (cfg : Cfg) (r : Route) (reach : Reach) (c : Cluster) (dm : Bytes) (k : Key) (token : Bytes)
+    (timeout now : Int) : Cluster × LockRes :=
+  match get cfg r reach c dm k now with
+  | (c1, .val x) =>
+    if x.val = token then
+      match expire cfg r reach c1 dm k timeout now with
+      | (c2, .ok) => (c2, .ok)
+      | (c2, .notFound) => (c2, .noSuchLock)
+      | (c2, _) => (c2, .other)
+    else (c1, .noSuchLock)
+  | (c1, .notFound) => (c1, .noSuchLock)
+  | (c1, _) => (c1, .other)
+
+/-- Destroy: every member drops the DMap's primary and backup fragments -/
+def destroy (c : Cluster) (dm : Bytes) : Cluster :=
+  fun i => { prim := fun d k => if d = dm then none else (c i).prim d k,
+             bak := fun d k => if d = dm then none else (c i).bak d k }
+
 end Olric.DMap
